@@ -22,6 +22,10 @@ def gen(rnd):
     cfg['maximp'] = rnd.choice([None, 0, 1, 2])
     cfg['skipn'] = rnd.choice([None, 0, 1, 2])
     cfg['giveup'] = rnd.choice([2, 3, 5, 50000])
+    if rnd.random() < 0.3:
+        # --also-interesting: candidates answered with that code are saved AND still count towards give-up
+        cfg['also'] = 3
+        sc['rules'] = [(atoms, 3 if out not in (0, 'timeout') and rnd.random() < 0.7 else out) for atoms, out in sc['rules']]
     cfg['nogiveup'] = rnd.random() < 0.25
     cfg['maxcrash'] = rnd.choice([1, 2, 3, 10])
     for p in sc['passes']:
@@ -97,6 +101,12 @@ def explore(ctx):
     n = 160 if ctx.quick() else 1500
     for it in range(n):
         sc = gen(rnd)
+        if it % 20 == 7:
+            # every candidate is rejected with the --also-interesting code: saved, and still counted towards give-up
+            sc = {'files': [('f0.c', 'ab')], 'rules': [([('lenge', 0, 3)], 3), ([], 0)],
+                  'passes': [{'key': 1, 'ops': [('dup', rnd.randint(0, 1)) for _ in range(rnd.randint(9, 14))], 'aos': 0, 'maxt': None, 'newfix': None}],
+                  'cfg': {'N': rnd.choice([1, 2, 3]), 'giveup': rnd.choice([2, 3]), 'nogiveup': False, 'also': 3, 'maximp': None, 'skipn': None, 'maxcrash': 10, 'no_cache': True},
+                  'sched': [rnd.randint(0, 7) for _ in range(30)]}
         o = driver.run_scenario(sc, ctx.tmp)
         ctx.evaluations += 1
         if o.diverged:
